@@ -54,6 +54,8 @@ class Submodule(Module):
         return ancestors
 
     def resolve_inherit(self, obj_tree, inherit_version):
+        # Forget a parent found earlier, it may have been renamed or removed
+        self.ancestor_obj = None
         if not self.ancestor_name:
             return
         if self.ancestor_name in obj_tree:
